@@ -17,7 +17,11 @@
  *   bp-finish                                  -> several lines, see dump_all(), terminated by `end <status>`
  *
  * Every write_data_block call the block processor makes goes through a logging wrapper around the real
- * block writer (W lines); truncate calls of the file are logged in sequence with them (T lines).
+ * block writer (W lines); truncate calls of the file are logged in sequence with them (T lines, before the W
+ * line of the call that issued them).  Fragment processing is visible through link-time wrappers
+ * (-Wl,--wrap) of hash_table_search_pre_hashed / hash_table_insert_pre_hashed (FR lines: one per non-sparse
+ * fragment, in processing order, with the checksum the worker computed) and through the equality callback
+ * (E lines: one per byte comparison: chunk index/offset/size, place the bytes were read from, answer).
  */
 #include "config.h"
 #include "hexio.h"
@@ -32,6 +36,11 @@
 #include "sqfs/error.h"
 #include "sqfs/block.h"
 #include "sqfs/io.h"
+
+/* the real internal header: the harness reads (never writes) proc->fblk_in_flight / frag_block to classify
+ * where a fragment comparison took its bytes from, and swaps the hash table's equality callback for a
+ * logging wrapper around the real chunk_info_equals */
+#include "lib/sqfs/src/block_processor/internal.h"
 
 #include <stdio.h>
 #include <stdlib.h>
@@ -240,10 +249,10 @@ static int lw_write(sqfs_block_writer_t *b, void *user, sqfs_u32 size, sqfs_u32 
 	char tmp[128];
 	int ret;
 
+	ret = w->inner->write_data_block(w->inner, user, size, checksum, flags, data, location);
 	snprintf(tmp, sizeof tmp, "W %08x %04x ", (unsigned)checksum, (unsigned)flags);
 	ev_puts(tmp);
 	ev_hex(data, size);
-	ret = w->inner->write_data_block(w->inner, user, size, checksum, flags, data, location);
 	if (ret == 0)
 		snprintf(tmp, sizeof tmp, " ok %llu %llu %llu\n", (unsigned long long)*location,
 			 (unsigned long long)w->file->size, (unsigned long long)w->inner->get_block_count(w->inner));
@@ -260,6 +269,67 @@ static void lw_destroy(sqfs_object_t *o)
 	logwr_t *w = (logwr_t *)o;
 	sqfs_drop(w->inner);
 	free(w);
+}
+
+/* ------------------------------------------------------------------ fragment path instrumentation */
+static bool (*real_equals)(void *user, const void *a, const void *b);
+static const sqfs_block_t *pending_frag;
+
+static bool eq_wrapper(void *user, const void *k, const void *c)
+{
+	sqfs_block_processor_t *p = user;
+	const chunk_info_t *key = k, *cmp = c;
+	const char *place = "disk";
+	const sqfs_block_t *it;
+	char tmp[160];
+	bool res;
+
+	for (it = p->fblk_in_flight; it != NULL; it = it->next)
+		if (it->index == cmp->index) { place = "flight"; break; }
+	if (it == NULL && p->frag_block != NULL && p->frag_block->index == cmp->index)
+		place = "open";
+	if (it == NULL && !strcmp(place, "disk") && p->cached_frag_blk != NULL && p->cached_frag_blk->index == cmp->index)
+		place = "cache";
+	res = real_equals(user, k, c);
+	if (logging && key->size == cmp->size && key->hash == cmp->hash) {
+		snprintf(tmp, sizeof tmp, "E %u %u %u %s %d\n", cmp->index, cmp->offset, cmp->size, place, (int)res);
+		ev_puts(tmp);
+	}
+	return res;
+}
+
+static void log_fr(const sqfs_block_processor_t *p)
+{
+	char tmp[64];
+	if (!logging || p->current_frag == NULL) return;
+	snprintf(tmp, sizeof tmp, "FR %08x %u\n", (unsigned)p->current_frag->checksum, (unsigned)p->current_frag->size);
+	ev_puts(tmp);
+}
+
+struct hash_entry *__real_hash_table_search_pre_hashed(struct hash_table *ht, sqfs_u32 hash, const void *key);
+struct hash_entry *__real_hash_table_insert_pre_hashed(struct hash_table *ht, sqfs_u32 hash, const void *key, void *data);
+
+struct hash_entry *__wrap_hash_table_search_pre_hashed(struct hash_table *ht, sqfs_u32 hash, const void *key)
+{
+	sqfs_block_processor_t *p = ht->user;
+	struct hash_entry *e;
+	if (real_equals == NULL || ht->key_equals_function != eq_wrapper)
+		return __real_hash_table_search_pre_hashed(ht, hash, key);
+	log_fr(p);
+	e = __real_hash_table_search_pre_hashed(ht, hash, key);
+	pending_frag = (e == NULL && p->fblk_lookup_error == 0) ? p->current_frag : NULL;
+	return e;
+}
+
+struct hash_entry *__wrap_hash_table_insert_pre_hashed(struct hash_table *ht, sqfs_u32 hash, const void *key, void *data)
+{
+	sqfs_block_processor_t *p = ht->user;
+	if (real_equals == NULL || ht->key_equals_function != eq_wrapper)
+		return __real_hash_table_insert_pre_hashed(ht, hash, key, data);
+	if (pending_frag == NULL || pending_frag != p->current_frag)
+		log_fr(p);           /* DONT_DEDUPLICATE: no search came first */
+	pending_frag = NULL;
+	return __real_hash_table_insert_pre_hashed(ht, hash, key, data);
 }
 
 /* ------------------------------------------------------------------ state */
@@ -455,6 +525,11 @@ int main(void)
 				desc.uncmp = uncmp;
 			}
 			ret = sqfs_block_processor_create_ex(&desc, &proc);
+			if (ret == 0) {
+				real_equals = proc->frag_ht->key_equals_function;
+				proc->frag_ht->key_equals_function = eq_wrapper;
+				pending_frag = NULL;
+			}
 			logging = 1;
 			if (ret) printf("err %d\n", ret); else puts("ok");
 		} else if (!strcmp(tok[0], "bp-file") && nt == 4 && proc) {
